@@ -452,6 +452,10 @@ def gen():
     tb = fn_body(ev, r"pub fn try_receive\s*\(&mut self", "events.rs::try_receive")
     pos = [tb.find("self.enque_timers()"), tb.find("self.priority_receiver.try_recv()"), tb.find("self.timers.iter().next()"), tb.find("self.receiver.try_recv()")]
     defB("TRY_RECEIVE_ORDER_PRIO_TIMER_PLAIN", all(x >= 0 for x in pos) and pos == sorted(pos) and "else if" not in tb)
+    eb = fn_body(ev, r"fn enque_timers\s*\(&mut self", "events.rs::enque_timers")
+    defB("ENQUE_TIMERS_DRAINS_WHOLE_CHANNEL", bool(re.fullmatch(r"\s*while let Ok\(timer_command\) = self\.timer_receiver\.try_recv\(\)\s*\{\s*self\.process_timer_command\(timer_command\);\s*\}\s*", eb)))
+    rt = fn_body(ev, r"pub fn receive_timeout\s*\(&mut self", "events.rs::receive_timeout")
+    defB("RECEIVE_TIMEOUT_REMAINING_FROM_START", bool(re.search(r"let start = Instant::now\(\);\s*loop\s*\{", rt)) and bool(re.search(r"let remaining = timeout\.saturating_sub\(start\.elapsed\(\)\);", rt)) and rt.count("remaining") == 2)
     # TimerId: (Instant, usize) ordered lexicographically by derive(Ord)
     m = re.search(r"#\[derive\(([^)]*)\)\]\s*pub struct TimerId\(([^)]*)\);", ev)
     defB("TIMER_ID_IS_DEADLINE_THEN_SEQ_ORDERED", bool(m) and "Ord" in [x.strip() for x in m.group(1).split(",")] and [x.strip() for x in m.group(2).split(",")] == ["Instant", "usize"])
